@@ -54,7 +54,7 @@ def oracle_barrier(run):
 
 def register(PROPS, COMPONENTS):
     COMPONENTS["barrier"] = dict(client="barrier", driver="barrier", tap=True, directed_runs=8, quick_runs=600,
-                                 thorough_runs=30000, oracle=oracle_barrier)
+                                 thorough_runs=30000, oracle=oracle_barrier, cov_headers=["gmlc/concurrency/Barrier.hpp"])
     PROPS["C09"] = dict(
         lean_files=["ConcVerif/Props/C09.lean"], components=["barrier"], stage="B",
         level_text="Lean 4 theorems (kernel-checked; any number of participants, generations, interleavings, any subset dropping "
@@ -68,16 +68,20 @@ def register(PROPS, COMPONENTS):
                    "unmodified header runs against substituted std primitives with a plain-access tap under a deterministic "
                    "scheduler and every primitive-level trace must be accepted by the model's step function with all edges covered.",
         level_note="Trusted: Lean kernel (+propext, Classical.choice, Quot.sound), the primitive semantics assumed for std::mutex / "
-                   "condition_variable, the shim+tap+scheduler+driver glue. Partial: the liveness clause is proved as the safety facts "
-                   "that imply it under weak fairness (L1-L4); the fair-termination step itself is not mechanised.",
+                   "condition_variable, the shim+tap+scheduler+driver glue. Liveness is proved without a fairness assumption for executions with "
+                   "finitely many calls / spurious wake-ups (deadlock-freedom relative to owed arrivals + strictly decreasing rank); "
+                   "starvation under an unfair mutex with infinitely many calls is not covered.",
         trusted_base=["Model/Barrier.lean is a hand-written model of Barrier.hpp (wait / wait_and_drop)",
                       "Driver/Barrier.lean rebuilds the values of threshold_/count_/generation_ from the tap's pld/pst lines and "
                       "attaches them to the mutex-release events (cwt, mul) where the model compares them with its own fields",
                       "between two primitive operations the real code performs finitely many plain accesses (straight-line code); "
                       "the model does not bound their number"],
-        partial=["'when the last one arrives all of them are released' is proved as the safety facts L1-L4 (no lost wake-up, holder "
-                 "never blocked, bounded remaining own steps of every released thread, enabledness / no thread blocked except on "
-                 "arrivals the client still owes); the final fair-scheduler termination step is not mechanised"],
+        partial=["'when the last one arrives all of them are released' is proved as: the safety facts L1-L4 (no lost wake-up, holder "
+                 "never blocked, bounded remaining own steps of every released thread, enabledness), C09_terminates / "
+                 "C09_bounded_run (every execution with finitely many calls, spurious wake-ups and plain accesses is finite under "
+                 "EVERY scheduler: ranking function, Base/Live.lean) and C09_stuck_owes_arrival (a state without an enabled "
+                 "protocol step has everybody returned or waiting for an arrival the client still owes). Not covered: starvation "
+                 "of one thread by infinitely many calls of others under an unfair mutex (C++ promises no fairness)"],
         assumptions=["std::mutex / std::condition_variable behave as in Base semantics (spurious wake-ups allowed)",
                      "size_t wrap-around is not modelled: Barrier(n) with n >= 1 participants, exactly the current participants call "
                      "(nobody over-arrives, nobody calls after wait_and_drop), fewer than 2^64 generations",
